@@ -1,3 +1,4 @@
+import NasimModel.Generated.LayoutOk
 import NasimModel.Model.Env
 import NasimModel.Props.C10
 import NasimModel.Props.C08
